@@ -19,6 +19,7 @@ import (
 
 	"github.com/spf13/afero"
 	"github.com/yandex/pandora/cli"
+	grpcimport "github.com/yandex/pandora/components/grpc/import"
 	phttp "github.com/yandex/pandora/components/phttp/import"
 	"github.com/yandex/pandora/core"
 	"github.com/yandex/pandora/core/aggregator"
@@ -140,6 +141,7 @@ func main() {
 	fs := afero.NewOsFs()
 	coreimport.Import(fs)
 	phttp.Import(fs)
+	grpcimport.Import(fs)
 
 	register.Aggregator("vphout", func(conf netsample.PhoutConfig) (core.Aggregator, error) {
 		a, err := netsample.NewPhout(fs, conf)
